@@ -31,6 +31,18 @@ PROPS = {
         assumptions=["rounding is not modelled: the 1e-9/1e-3 accuracy clause and the log round trips are decided by the oracle harness on stratified inputs",
                      "log (range and round trips) is covered by the harness only; truncation theorems are at kernel level (trig.hpp) and at function level for SO3/SE2 exp"],
     ),
+    "C06": dict(
+        tracer_units=["SO2", "SO3", "SE2", "SE3", "SE3H", "C1", "Rn", "BA", "BB", "BC", "BD", "BEi", "BE", "BF"],
+        coq_targets=["Props/Properties_C06.vo"],
+        coq_targets_thorough=["Props/Properties_C06x.vo"],
+        props_files=["Props/Properties_C06.v"],
+        props_files_thorough=["Props/Properties_C06x.v"],
+        cone=["Proofs/C06_*.v", "Props/Properties_C06*.v"],
+        harnesses=[dict(name="h_c06")],
+        trusted_base=TB_COMMON + ["harness/h_c06.cpp: bundle-vs-parts equality on the real double instantiation for 11 compositions (5 of them not traced) and vector/scalar additive-group checks"],
+        assumptions=["'every composition': theorems cover the traced pool (7 compositions incl. nesting/repetition/commutative members; 2 of them in the thorough tier); further compositions only by the harness pool",
+                     "matrix()/hat() of Bundles are not traced (Eigen-vector members have no class API); the direct-product matrix form follows from C01 per part"],
+    ),
     "C03": dict(
         tracer_units=GROUP_UNITS,
         coq_targets=["Props/Properties_C03.vo"],
@@ -43,6 +55,12 @@ PROPS = {
 }
 
 MANIFEST_TEXT = {
+    "C06": dict(
+        technique="Coq proof over the regenerated model: traced Bundle operation = concatenation / block-diagonal / stacked-Hessian arrangement of the separately traced part operations on the part<i>() segments (path-matching + reflexivity); Eigen vectors and scalars proved additive; translator validation; bundle-vs-parts harness",
+        text="For a pool of Bundle compositions (SO3xT3, T2xSE2, SE2xSO3xT1xSO2, SO3xSO3, SO2xT2, (SO2xT2)xSE3, C1xSE3) traced through the generic LieGroup interface: machine-checked that composition/inverse/log/exp/identity equal the concatenation of the same traced operation of each part on its segment (on every path, paths matched), Ad/ad/dr_exp/dr_expinv equal the block-diagonal arrangement, d2r_exp/d2r_expinv equal the documented stacked-Hessian placement, and part<i>() views the segment at the prefix sum of the RepSizes. For Eigen::Vector<N> (N=1..4), VectorX (n=0,1,3,5) and the scalar type: composition = +, inverse = -, exp = log = id, Ad = dr_exp = dr_expinv = I, ad = 0, Hessians = 0. Offsets are baked into the regenerated model, so a wrong prefix sum or block placement breaks reflexivity.",
+        note="Trusted: Coq kernel; translator (validated each run); 'every composition' is a pool of traced instances plus further compositions in the harness.",
+        design_ref="DESIGN.md section 5 C06",
+    ),
     "C02": dict(
         technique="Coq proof over the regenerated model: traced exp (closed-form path) = hand-written flow Phi_a(1), flows proved to solve the matrix ODE with Coquelicot; kernel truncation bounds from stdlib alternating-series enclosures; translator validation; long-double expm oracle harness",
         text="For SO2, SO3, SE2, SE3, C1, Galilei, SE_K_3<1..3>: machine-checked that on every closed-form path of the traced exp (rotation norm^2 > eps2, both sign-canonicalisation outcomes) the documented matrix of the result equals the textbook closed-form flow at t=1 and satisfies the representation constraint; that each flow solves Phi'=Phi hat(a), Phi(0)=I for all t (so exp(a) is the matrix exponential, `is_mexp`); that rotation-free tangents are exact on the series path; and that on 0<x^2<=eps2 the series and closed-form paths of every detail/trig.hpp kernel (and of SO3/SE2 exp at coefficient level) differ by <=1e-24-scale bounds. A changed coefficient, Taylor order, threshold or block breaks an obligation. log range/round trips and the floating-point accuracy clause by oracle harness (stratified incl. both sides of the switch, near pi, norms to 50).",
